@@ -134,6 +134,11 @@ Definition wg (s : st) (o : op) : Prop :=
           snd (prepare_write ideal (c_cap K) (q (th s t)) (esz e)) <> None -> clock s <= ets e + g
       | None => True
       end
+  | B =>
+      (* a read pass does not start on a thread whose unbounded queue has a drained node followed by an empty one
+         (prepare_read follows one link per call and would return nothing although later nodes hold records): that
+         state arises only after shrink_thread_local_queue followed by a record larger than the shrunken node *)
+      match pc s with PReading (u :: _) => u_blocked K (th s u) = false | _ => True end
   | _ => True
   end.
 
@@ -143,7 +148,7 @@ Proof. reflexivity. Qed.
 Lemma sim_fstep s a o : R s a -> wg s (F o) -> exists ops, R (fstep K s o) (orun a ops).
 Proof.
   intros HR Hwg. pose proof HR as [B1 B2 B3 B4 B5 B6 B7].
-  destruct o as [t e|t|t|t|t|l v|k v|k m|d]; cbn [fstep].
+  destruct o as [t e|t|t|t|t|l v|k v|k m|d|t c]; cbn [fstep].
   - (* FClock *)
     destruct (pend (th s t)) as [p|] eqn:Ep; [exists []; exact HR|].
     destruct (tvalid (th s t) && passes_logger s e); [|exists []; exact HR].
@@ -225,6 +230,8 @@ Proof.
   - exists []. eapply R_asame; [|exact HR]. repeat split.
   - exists []. destruct (existsb (N.eqb m) (sfilt (sk s k)) || (m =? 0)); [exact HR|]. eapply R_asame; [|exact HR]. repeat split.
   - exists [Ord.Tick d]. cbn [orun fold_left Ord.step]. constructor; cbn; auto. now rewrite B1.
+  - (* FShrink: invisible to the timestamp skeleton *)
+    exists []. eapply R_asame; [|exact HR]. repeat split. intro u. cbn. unfold upd. destruct (Nat.eqb_spec u t) as [->|]; reflexivity.
 Qed.
 
 (* ---------- FlagInv is an invariant *)
@@ -235,7 +242,7 @@ Proof. intros (A & B & Cc) H E. rewrite B, Cc. apply H. now rewrite <- A. Qed.
 
 Lemma fstep_flag s o : FlagInv s -> FlagInv (fstep K s o).
 Proof.
-  intro H. destruct o as [t e|t|t|t|t|l v|k v|k m|d]; cbn [fstep].
+  intro H. destruct o as [t e|t|t|t|t|l v|k v|k m|d|t c]; cbn [fstep].
   - destruct (pend (th s t)); [exact H|]. destruct (tvalid (th s t) && passes_logger s e); exact H.
   - destruct (memb t (registered s) || negb (tvalid (th s t))); [exact H|]. intro E. discriminate.
   - destruct (pend (th s t)) as [e0|]; [|exact H]. destruct (negb (memb t (registered s))); [exact H|]. cbv zeta.
@@ -248,6 +255,7 @@ Proof.
   - exact H.
   - exact H.
   - destruct (existsb (N.eqb m) (sfilt (sk s k)) || (m =? 0)); exact H.
+  - exact H.
   - exact H.
 Qed.
 
@@ -374,7 +382,7 @@ Lemma read_loop_take fuel lim tn : forall x total notes iss del, TInv K x iss de
   let x1 := fst (fst (fst (read_loop K fuel lim tn x total notes))) in
   exists moved, qev x = moved ++ qev x1 /\ tbuf x1 = tbuf x ++ moved /\ pend x1 = pend x /\
     Forall (fun e => ets e <= tn) moved /\
-    (fuel <> 0%nat -> moved = [] -> qev x1 = [] \/ exists e r, qev x1 = e :: r /\ tn < ets e).
+    (fuel <> 0%nat -> u_blocked K x = false -> moved = [] -> qev x1 = [] \/ exists e r, qev x1 = e :: r /\ tn < ets e).
 Proof.
   induction fuel as [|f IH]; intros x total notes iss del T; cbn [read_loop].
   - exists []. cbn. rewrite app_nil_r. repeat split; auto. intro H; congruence.
@@ -384,13 +392,15 @@ Proof.
     { unfold prepare_read. intro H. apply (empty_true_nil K x iss del T).
       destruct (empty (q x)) as [q1 em]. cbn [fst snd] in *. destruct em; [reflexivity|discriminate]. }
     destruct (prepare_read ideal (c_cap K) (q x)) as [q1 r]. cbn [fst snd] in *.
+    destruct (u_blocked K x) eqn:Eb.
+    { exists []. cbn. rewrite app_nil_r. repeat split; auto. intros _ Hb. discriminate. }
     destruct r as [off|].
-    2:{ exists []. cbn. rewrite app_nil_r. repeat split; auto; try (intros _ _; left; now apply Hnone). }
+    2:{ exists []. cbn. rewrite app_nil_r. repeat split; auto; try (intros _ _ _; left; now apply Hnone). }
     destruct (qev x) as [|e rest] eqn:Eq.
     { exists []. cbn. rewrite app_nil_r. repeat split; auto. }
     rewrite Hgrace_b.
     destruct (tn <? ets e) eqn:Ets; cbn [andb].
-    { exists []. cbn. rewrite app_nil_r. repeat split; auto. intros _ _. right. exists e, rest. split; [reflexivity|]. now apply N.ltb_lt. }
+    { exists []. cbn. rewrite app_nil_r. repeat split; auto. intros _ _ _. right. exists e, rest. split; [reflexivity|]. now apply N.ltb_lt. }
     apply N.ltb_ge in Ets.
     assert (Hrec : recs (q x) = esz e :: map esz rest) by (rewrite Hr; reflexivity).
     specialize (F1 ltac:(discriminate) _ _ Hrec).
@@ -408,7 +418,7 @@ Proof.
                else (x1, total + esz e, notes ++ fmt_notes e, false) in
       exists moved, e :: rest = moved ++ qev (fst (fst (fst r))) /\ tbuf (fst (fst (fst r))) = tbuf x ++ moved /\
         pend (fst (fst (fst r))) = pend x /\ Forall (fun e => ets e <= tn) moved /\
-        (S f <> 0%nat -> moved = [] -> qev (fst (fst (fst r))) = [] \/ exists e' r', qev (fst (fst (fst r))) = e' :: r' /\ tn < ets e')).
+        (S f <> 0%nat -> false = false -> moved = [] -> qev (fst (fst (fst r))) = [] \/ exists e' r', qev (fst (fst (fst r))) = e' :: r' /\ tn < ets e')).
     { intros c g x1 r. unfold r. destruct ((total + esz e <? lim) && (N.of_nat (length (tbuf x1)) <? c_hard K)).
       - destruct (IH x1 (total + esz e) (notes ++ fmt_notes e) iss del (Tmove c g)) as (mv & M1 & M2 & M3 & M4 & _).
         exists (e :: mv). cbn [qev tbuf pend set_thr_tbuf sh set_thr_uqs set_thr_q x1] in *. repeat split.
@@ -416,8 +426,8 @@ Proof.
         + rewrite M2. now rewrite <- app_assoc.
         + exact M3.
         + constructor; assumption.
-        + intros _ H. discriminate.
-      - exists [e]. cbn. repeat split; auto. intros _ H; discriminate. }
+        + intros _ _ H. discriminate.
+      - exists [e]. cbn. repeat split; auto. intros _ _ H; discriminate. }
     rewrite Hcatch.
     destruct (efmt e); destruct (ekind e); apply Hgo.
 Qed.
@@ -427,10 +437,10 @@ Definition Big (s : st) : Prop := Good K s /\ CInv K s /\ FlagInv s.
 
 Lemma ostep1 a o : orun a [o] = ostep a o. Proof. reflexivity. Qed.
 
-Lemma sim_readq s a u todo : Big s -> R s a -> pc s = PReading (u :: todo) ->
+Lemma sim_readq s a u todo : Big s -> R s a -> pc s = PReading (u :: todo) -> u_blocked K (th s u) = false ->
   exists ops, R (bstep K s) (orun a ops).
 Proof.
-  intros (G & Cv & Fl) HR Hpc. pose proof HR as [B1 B2 B3 B4 B5 B6 B7].
+  intros (G & Cv & Fl) HR Hpc Hnb. pose proof HR as [B1 B2 B3 B4 B5 B6 B7].
   unfold bstep. rewrite Hpc.
   pose proof (proj1 G u) as T.
   unfold read_queue.
@@ -438,7 +448,7 @@ Proof.
   pose proof (read_loop_no_escape K (S (length (qev (th s u)))) (read_limit K (th s u)) (tsnow s) Hcatch (th s u) 0 []) as Hesc.
   destruct (read_loop K (S (length (qev (th s u)))) (read_limit K (th s u)) (tsnow s) (th s u) 0 []) as [[[x1 total] notes] esc].
   cbn [fst snd] in Hm, Hesc. subst esc.
-  destruct Hm as (moved & M1 & M2 & M3 & M4 & M5). specialize (M5 ltac:(discriminate)).
+  destruct Hm as (moved & M1 & M2 & M3 & M4 & M5). specialize (M5 ltac:(discriminate) Hnb).
   set (x2 := if total =? 0 then x1 else sh (u_commit_read K) (set_thr_q x1 (commit_read ideal (c_batch K) (c_pub K) (q x1)) (qev x1))).
   assert (X2 : qev x2 = qev x1 /\ tbuf x2 = tbuf x1 /\ pend x2 = pend x1) by (unfold x2; destruct (total =? 0); auto).
   destruct X2 as (X2q & X2t & X2p).
@@ -682,9 +692,9 @@ Lemma ord_bcheck x : Ord.pc x = Ord.Done true -> let x' := ostep x Ord.BCheck in
    else Ord.pc x' = Ord.Done false /\ Ord.cache x' = Ord.registered x).
 Proof. intro E. cbn [Ord.step]. rewrite E. destruct (Ord.pending_somewhere x); cbn; repeat split. Qed.
 
-Lemma sim_bstep s a : Big s -> R s a -> exists ops, R (bstep K s) (orun a ops).
+Lemma sim_bstep s a : Big s -> R s a -> wg s B -> exists ops, R (bstep K s) (orun a ops).
 Proof.
-  intros (G & Cv & Fl) HR. pose proof HR as [B1 B2 B3 B4 B5 B6 B7]. pose proof (R_Rnp _ _ HR) as HN.
+  intros (G & Cv & Fl) HR Hwb. pose proof HR as [B1 B2 B3 B4 B5 B6 B7]. pose proof (R_Rnp _ _ HR) as HN.
   unfold bstep. destruct (pc s) as [| | |[|u todo]| | | | |] eqn:Hpc; cbn [apc] in B6.
   - (* PIdle: first cache refresh *)
     exists [Ord.BRefresh]. rewrite ostep1. cbn [Ord.step]. rewrite B6.
@@ -710,7 +720,8 @@ Proof.
       * exists [Ord.BDecide false]. rewrite ostep1. cbn [Ord.step]. rewrite B6. constructor; cbn; auto.
       * exists [Ord.BDecide true]. rewrite ostep1. cbn [Ord.step]. rewrite B6. constructor; cbn; auto.
   - (* PReading (u :: todo) *)
-    pose proof (sim_readq s a u todo (conj G (conj Cv Fl)) HR Hpc) as H. unfold bstep in H. rewrite Hpc in H. exact H.
+    assert (Hnb : u_blocked K (th s u) = false) by (cbn [wg] in Hwb; rewrite Hpc in Hwb; exact Hwb).
+    pose proof (sim_readq s a u todo (conj G (conj Cv Fl)) HR Hpc Hnb) as H. unfold bstep in H. rewrite Hpc in H. exact H.
   - (* PSingle *)
     destruct (sim_process s a G HN B6) as (ops & HR1 & Hp1).
     exists (ops ++ [Ord.BStop]). rewrite orun_app, ostep1.
